@@ -169,7 +169,7 @@ class Rec:
         if r is not None:
             self.close_d[i].append(r)
             r.addBoth(lambda x, i=i: self.close_results[i].append(x))
-            if first and self.P.get("get_in_close_cb") and self.P.get("mode") == "deferred":
+            if first and self.P.get("get_in_close_cb") and side_mode(self.P, i) == "deferred":
                 # an application that asks for everything again from the callback of close() itself
                 def again(x, i=i):
                     for g in ("welcome", "code", "key", "verifier", "versions", "msg"):
@@ -299,10 +299,16 @@ def run(P, on_step=None, setup=None, at_stable=None, adversary=None, on_idle=Non
     return rec
 
 
+def side_mode(P, i):
+    """API style of side i: P["modes"] = [styleA, styleB] overrides the common P["mode"]"""
+    ms = P.get("modes")
+    return ms[i] if ms else P.get("mode")
+
+
 def _settle(W, P, max_steps=None):
     """stabilisation; with a dilated side the keep-alive timer never stops, so virtual time is bounded and
     'only timers beyond the bound remain' counts as quiescent"""
-    if any(P.get("dilate") or []) and P.get("mode") == "deferred":
+    if any(d_ and side_mode(P, i_) == "deferred" for i_, d_ in enumerate(P.get("dilate") or [])):
         st = W.settle(max_steps=max_steps or P.get("settle_steps", 1500), max_time=5.0)
         return "quiescent" if st == "time" else st
     return W.settle(max_steps=max_steps or P.get("settle_steps", 1500))
@@ -310,12 +316,15 @@ def _settle(W, P, max_steps=None):
 
 def _run(P, rec, W, tape, on_step, setup, at_stable, adversary=None, on_idle=None):
     mode = P["mode"]
+    modes = [side_mode(P, 0), side_mode(P, 1)]
+    if "deferred" in modes:
+        mode = "deferred"          # (per-side tests below use modes[i])
     ws = rec.ws
     for i in range(2):
         kw = dict(versions=P["versions"][i])
         if P["dilate"][i]:
             kw["dilation"] = True
-        if mode == "delegate":
+        if modes[i] == "delegate":
             kw["delegate"] = Delegate(rec, i)
         w = W.create(P["appids"][i], **kw)
         w._sim_svc.refuse = P["refuse"][i]
@@ -340,6 +349,8 @@ def _run(P, rec, W, tape, on_step, setup, at_stable, adversary=None, on_idle=Non
     gets_pending = [[], []]
     if mode == "deferred":
         for i in range(2):
+            if modes[i] != "deferred":
+                continue
             allg = ["welcome", "code", "key", "verifier", "versions", "msg"]
             if P["gets"] == "early":
                 for g in allg:
@@ -366,7 +377,7 @@ def _run(P, rec, W, tape, on_step, setup, at_stable, adversary=None, on_idle=Non
         for k in range(len(P["sends"][i])):
             intents.append(("send", i, k))
     for i in range(2):
-        if P["dilate"][i] and mode == "deferred":      # (the delegated API has no dilate())
+        if P["dilate"][i] and modes[i] == "deferred":      # (the delegated API has no dilate())
             intents.append(("dilate", i))
     for c in P["closes"]:
         intents.append(("close", c[0], c[1]))
@@ -375,6 +386,8 @@ def _run(P, rec, W, tape, on_step, setup, at_stable, adversary=None, on_idle=Non
         intents.append(("third",))
     if mode == "deferred":
         for i in range(2):
+            if modes[i] != "deferred":
+                continue
             for n_ in range(P["extra_msg_gets"]):
                 intents.append(("get", i, "msg", n_))
     for n_, (side_, op_) in enumerate(P.get("extra_ops") or []):
@@ -689,6 +702,8 @@ def _run(P, rec, W, tape, on_step, setup, at_stable, adversary=None, on_idle=Non
     flush()
     if mode == "deferred" and P["gets"] != "after":
         for i in range(2):
+            if modes[i] != "deferred":
+                continue
             for g in list(gets_pending[i]):
                 gets_pending[i].remove(g)
                 _request_get(rec, i, g)
@@ -722,11 +737,13 @@ def _run(P, rec, W, tape, on_step, setup, at_stable, adversary=None, on_idle=Non
         on_step(rec)
     if mode == "deferred" and P.get("get_after_closed"):
         for i in range(2):
+            if modes[i] != "deferred":
+                continue
             for g in ["welcome", "code", "key", "verifier", "versions", "msg"]:
                 _request_get(rec, i, g)
         rec.settle.append(_settle(W, P, 1000))
     for i in range(2):
-        if mode == "delegate":
+        if modes[i] == "delegate":
             cl = [e for e in rec.evs[i] if e[0] == "closed"]
             rec.verdict[i] = cl[0][1] if cl else None
         else:
